@@ -241,7 +241,7 @@ def conv : Conv St where
       addLine .elseOpen
   elseEnd := pure ()
   forStart := do
-      modify fun s => { s with endLabels := s!"_e{s.endLabels.length}" :: s.endLabels,
+      modify fun s => { s with endLabels := s!"_e{s.forCounter}" :: s.endLabels,
                                 fors := s!"_f{s.forCounter}" :: s.fors, forCounter := s.forCounter + 1 }
       let s ← get
       let l ← currentFor
@@ -266,8 +266,8 @@ def conv : Conv St where
       | e :: _ => addLine (.goto e)
       | [] => fail "break outside of a loop is not supported"
   cont := do
-      let s ← get
-      addLine (.goto s!"_f{s.forCounter - 1}")
+      let l ← currentFor
+      addLine (.goto l)
   print vals := callEcho vals
   panic v := do
       callEcho [v]
@@ -326,7 +326,7 @@ def conv : Conv St where
       addLine (.raw "set /A \"_dvc=!_dvc!+1\"")
       let h ← nextHelperVar
       varAssignment h "_dv!_dvc!" false
-      modify fun s => { s with sahReq := true }
+      modify fun s => { s with slsReq := true }
       let s ← get
       callFunc "_sls" [] [varEvalString s h false, toString vals.length]
       sliceInits (varEvalString s h false) vals 0
@@ -427,18 +427,18 @@ def helperLines (s : St) : List BLine :=
       [.raw "set \"_h=\"", .opn "for /f \"delims=\" %%i in (%~1) do (",
        .raw "if defined _h set \"_h=!_h!!LF!\"", .raw "set \"_h=!_h!%%i\"", .close] else []
   let sch := if s.schReq then helper "slice copy" "_sch"
-      [.raw "set \"_i=0\"", .call "_slg" ["%2"], .label "_sch_loop", .opn "if \"!_i!\" lss \"!_len!\" (",
+      [.raw "set \"_i=0\"", .call "_slg" ["%2"], .label "_sch_loop", .opn "if !_i! lss !_len! (",
        .raw "for /f \"delims=\" %%i in (\"%2_!_i!\") do set \"_v=!%%i!\"",
        .raw (sliceAssignmentString "!%1!" "!_i!" "!_v!"), .raw "set /A \"_i=!_i!+1\"", .goto "_sch_loop", .close,
        .call "_sls" ["!%1!", "!_i!"]] else []
-  let sahReq := s.sahReq || s.schReq
+  let sahReq := s.sahReq
   let sah := if sahReq then helper "slice assignment" "_sah"
-      [.call "_slg" ["!%1!"], .raw "set \"_i=!_len!\"", .label "_sah_loop", .opn "if \"!_i!\" lss \"%2\" (",
+      [.call "_slg" ["!%1!"], .raw "set \"_i=!_len!\"", .label "_sah_loop", .opn "if !_i! lss %2 (",
        .raw (sliceAssignmentString "!%1!" "!_i!" "%3"), .raw "set /A \"_i=!_i!+1\"", .goto "_sah_loop", .elseOpen,
        .raw "set /A \"_len=%2+1\"", .call "_sls" ["!%1!", "!_len!"], .close,
        .raw (sliceAssignmentString "!%1!" "%2" "!_fa0!")] else []
-  let slsReq := s.slsReq || sahReq
-  let slgReq := s.slgReq || sahReq
+  let slsReq := s.slsReq || sahReq || s.schReq
+  let slgReq := s.slgReq || sahReq || s.schReq
   let sls := if slsReq then helper "slice length set" "_sls" [.raw "set \"%1_len=%2\""] else []
   let slg := if slgReq then helper "slice length get" "_slg" [.raw "set \"_len=!%1_len!\""] else []
   let stsh := if s.stshReq then helper "string subscript" "_stsh"
